@@ -392,7 +392,7 @@ fn part_parse_edits(rep: &mut Report, thorough: bool, half: usize) {
         // claimed variant. Keys above 1300 bytes (3072 bits and more) get the structural head and the tail, the rest
         // of their body is CRT integers like the part that is covered.
         let big_key = label.starts_with("key ") && der.len() > 1300;
-        let sec = Section::new(&format!("parse/d1/{}", label), &format!("all {} distance-1 mutants of a {}-byte seed{} through every DER parser; each mutant also PEM-wrapped through every PEM parser", n, der.len(), if big_key { " at positions in the first 420 and last 160 bytes" } else { "" })).with_deadline(cap);
+        let sec = Section::new(&format!("parse/d1/{}", label), &format!("all {} distance-1 mutants of a {}-byte seed{} through every DER parser; each mutant also PEM-wrapped through every PEM parser", n, der.len(), if big_key { " at positions in the first 420 and last 160 bytes" } else { "" })).with_deadline(if big_key { cap.min(400) } else { cap });
         run::sweep_n(&sec, n, &|i| d1_mutant(der, i).1, &|i| {
             let (m, mlabel) = d1_mutant(der, i);
             let mut out = Outcome::default();
